@@ -179,7 +179,7 @@ def interpret(unit, g, raw, off, path):
             tags = set(finfo.get('props', []))
         res['failures'].append({
             'function': fn, 'kind': msg, 'clause': ctext[:300], 'clause_origin': cmeta['origin'],
-            'site': stext[:300], 'site_origin': smeta['origin'], 'tags': sorted(tags),
+            'site': stext[:300], 'site_origin': smeta['origin'], 'tags': sorted(tags), 'site_line': max(sk, ck) if sfn == cfn else sk,
             'src': finfo.get('src'), 'rendered': (d.get('rendered') or '')[:2500],
         })
     # expect-fail functions (canaries) must fail; their failures are not reported
@@ -190,6 +190,26 @@ def interpret(unit, g, raw, off, path):
                 if c not in failed_fns:
                     res['expect_fail_ok'] = False
         res['failures'] = [f for f in res['failures'] if f['function'] not in g.expect_fail]
+    # Taint: Verus ASSUMES a failed assertion and carries on, so every obligation of the same function that comes after the
+    # first failure (and every postcondition, checked at the returns) was not really discharged.  Report their tags as
+    # `tainted` (undecided for those properties unless the witness search finds a failing input) -- never as proved.
+    res['tainted'] = {}
+    first_fail = {}
+    for f in res['failures']:
+        if f.get('site_line') is not None and f['function']:
+            first_fail[f['function']] = min(first_fail.get(f['function'], 10**9), f['site_line'])
+    if first_fail:
+        sig_open = {}
+        for k, fn in enumerate(fn_of_line):
+            if fn in first_fail:
+                tg = g.meta[k]['tags']
+                body_started = sig_open.get(fn, False)
+                if g.lines[k].strip() == '{' and not body_started:
+                    sig_open[fn] = True
+                if (not body_started) or k > first_fail[fn]:
+                    if tg:
+                        res['tainted'].setdefault(fn, set()).update(tg)
+        res['tainted'] = {k: sorted(v) for k, v in res['tainted'].items()}
     if raw['returncode'] != 0 and n_verif_err == 0 and not res['tool_errors']:
         res['tool_errors'].append('verus exited with %s and no diagnostics: %s' % (raw['returncode'], raw['stderr'][-1500:]))
     return res
